@@ -30,6 +30,7 @@ class MalCompiler:
     def __init__(self):
         self.path = None
         self.current_file = None
+        self.files_in_progress = []
 
     def compile(self, malfile: Optional[str] = None):
         # The path of an included file is relative to the file that includes
@@ -40,8 +41,15 @@ class MalCompiler:
         if self.path is not None and not os.path.isabs(malfile):
             malfile = os.path.join(self.path, malfile)
 
+        real_path = os.path.realpath(malfile)
+        if real_path in self.files_in_progress:
+            # The file (indirectly) includes itself, its declarations are
+            # already being collected
+            return {}
+
         self.path = os.path.dirname(malfile)
         self.current_file = os.path.basename(malfile)
+        self.files_in_progress.append(real_path)
 
         try:
             input_stream = FileStream(
@@ -59,5 +67,6 @@ class MalCompiler:
 
             return malVisitor(compiler=self).visit(tree)
         finally:
+            self.files_in_progress.pop()
             self.path = previous_path
             self.current_file = previous_file
